@@ -9,25 +9,38 @@ use std::io::{Read, Write};
 use crate::vp_io::*;
 
 // ---- byte encodings (uninterpreted; axioms cross-checked on the real crate by Kani K3) --------
+// f64 values enter every axiom only through `fbits` (their 64-bit pattern as a mathematical
+// integer): axioms quantified over `f64` do not fire on struct-field terms in this Verus version
+// (missing typing facts for float fields), axioms quantified over `int` always do.
 pub uninterp spec fn enc_i32(big: bool, v: i32) -> Seq<u8>;
 pub uninterp spec fn dec_i32(big: bool, s: Seq<u8>) -> i32;
-pub uninterp spec fn enc_f64(big: bool, v: f64) -> Seq<u8>;
-pub uninterp spec fn dec_f64(big: bool, s: Seq<u8>) -> f64;
+pub uninterp spec fn fbits(v: f64) -> int;            // bit pattern, 0 <= fbits < 2^64
+pub uninterp spec fn f64_of(b: int) -> f64;           // the float with that bit pattern
+pub uninterp spec fn enc_bits64(big: bool, b: int) -> Seq<u8>;
+pub uninterp spec fn dec_bits64(big: bool, s: Seq<u8>) -> int;
+pub open spec fn enc_f64(big: bool, v: f64) -> Seq<u8> { enc_bits64(big, fbits(v)) }
+pub open spec fn dec_f64(big: bool, s: Seq<u8>) -> f64 { f64_of(dec_bits64(big, s)) }
 
 pub broadcast axiom fn ax_enc_i32_len(big: bool, v: i32)
     ensures (#[trigger] enc_i32(big, v)).len() == 4;
-pub broadcast axiom fn ax_enc_f64_len(big: bool, v: f64)
-    ensures (#[trigger] enc_f64(big, v)).len() == 8;
+pub broadcast axiom fn ax_enc_f64_len(big: bool, b: int)
+    ensures (#[trigger] enc_bits64(big, b)).len() == 8;
 pub broadcast axiom fn ax_dec_enc_i32(big: bool, v: i32)
     ensures dec_i32(big, #[trigger] enc_i32(big, v)) == v;
-pub broadcast axiom fn ax_dec_enc_f64(big: bool, v: f64)
-    ensures dec_f64(big, #[trigger] enc_f64(big, v)) == v;
+pub broadcast axiom fn ax_dec_enc_f64(big: bool, b: int)
+    ensures dec_bits64(big, #[trigger] enc_bits64(big, b)) == b;
 pub broadcast axiom fn ax_enc_dec_i32(big: bool, s: Seq<u8>)
     requires s.len() == 4
     ensures enc_i32(big, #[trigger] dec_i32(big, s)) == s;
 pub broadcast axiom fn ax_enc_dec_f64(big: bool, s: Seq<u8>)
     requires s.len() == 8
-    ensures enc_f64(big, #[trigger] dec_f64(big, s)) == s;
+    ensures enc_bits64(big, #[trigger] dec_bits64(big, s)) == s, 0 <= dec_bits64(big, s) < 0x1_0000_0000_0000_0000;
+pub broadcast axiom fn ax_fbits_of(b: int)
+    requires 0 <= b < 0x1_0000_0000_0000_0000
+    ensures fbits(#[trigger] f64_of(b)) == b;
+
+/// bit-identical floats (C01: "bit-identical X, Y and Z values")
+pub open spec fn same_bits(a: f64, b: f64) -> bool { fbits(a) == fbits(b) }
 
 pub open spec fn le_i32(v: i32) -> Seq<u8> { enc_i32(false, v) }
 pub open spec fn be_i32(v: i32) -> Seq<u8> { enc_i32(true, v) }
@@ -43,11 +56,7 @@ pub struct LittleEndian;
 impl ByteOrder for BigEndian { open spec fn big() -> bool { true } }
 impl ByteOrder for LittleEndian { open spec fn big() -> bool { false } }
 
-/// the effect of one successful `write_all(b)`
-pub open spec fn wr<W: Write + ?Sized>(o: &W, f: &W, b: Seq<u8>) -> bool {
-    f.out() == splice(o.out(), o.wpos(), b) && f.wpos() == o.wpos() + b.len() && f.nfail() == o.nfail()
-}
-/// a failed write_all(b): the failure is counted and some prefix of b was persisted
+/// a failed write_all(b): the failure is counted
 pub open spec fn wr_fail<W: Write + ?Sized>(o: &W, f: &W, b: Seq<u8>) -> bool {
     f.nfail() == o.nfail() + 1
 }
@@ -103,35 +112,8 @@ impl<R: Read> ReadBytesExt for R {
     fn read_f64<B: ByteOrder>(&mut self) -> (r: Result<f64, std::io::Error>) { unimplemented!() }
 }
 
-// ---- sequencing lemmas -------------------------------------------------------------------------
-pub broadcast proof fn lemma_splice_splice(s: Seq<u8>, p: nat, a: Seq<u8>, b: Seq<u8>)
-    ensures #[trigger] splice(splice(s, p, a), p + a.len(), b) == splice(s, p, a + b)
-{
-    assert(splice(splice(s, p, a), p + a.len(), b) =~= splice(s, p, a + b));
-}
-
-pub broadcast proof fn lemma_wr_wr<W: Write>(o: &W, m: &W, f: &W, a: Seq<u8>, b: Seq<u8>)
-    requires #[trigger] wr(o, m, a), #[trigger] wr(m, f, b)
-    ensures wr(o, f, a + b)
-{
-    lemma_splice_splice(o.out(), o.wpos(), a, b);
-}
-
-pub proof fn lemma_wr_empty<W: Write>(o: &W)
-    ensures wr(o, o, Seq::<u8>::empty())
-{
-    assert(splice(o.out(), o.wpos(), Seq::<u8>::empty()) =~= o.out());
-}
-
-pub proof fn lemma_wr_append<W: Write>(o: &W, f: &W, b: Seq<u8>)
-    requires wr(o, f, b), at_end(o)
-    ensures f.out() == o.out() + b, at_end(f)
-{
-    lemma_splice_end(o.out(), o.wpos(), b);
-}
-
 pub broadcast group g_bytes {
-    ax_enc_i32_len, ax_enc_f64_len, ax_dec_enc_i32, ax_dec_enc_f64, ax_enc_dec_i32, ax_enc_dec_f64,
+    ax_enc_i32_len, ax_enc_f64_len, ax_dec_enc_i32, ax_dec_enc_f64, ax_enc_dec_i32, ax_enc_dec_f64, ax_fbits_of,
 }
 
 } // mod vp_bytes
